@@ -82,6 +82,115 @@ class _Under(object):
         pass
 
 
+class _RichUnder(_Under):
+    """an underlying object with the rest of the socket / file API, all of
+    it raw (what a real socket and its makefile() offer)"""
+
+    def sendall(self, b):
+        self.send(b)
+
+    def write(self, b):
+        return self.send(b)
+
+    def sendto(self, b, *a):
+        return self.send(b)
+
+    def sendmsg(self, bufs, *a):
+        return self.send(b''.join(bytes(x) for x in bufs))
+
+    def recv_into(self, b, n=0, *a):
+        data = self.recv(n or len(b))
+        b[:len(data)] = data
+        return len(data)
+
+    def recvfrom(self, n, *a):
+        return self.recv(n), None
+
+    def read1(self, n=-1):
+        return self.recv(n if n and n > 0 else 4096)
+
+    def readall(self):
+        return self.recv(1 << 20)
+
+    def readline(self, n=-1):
+        return self.recv(n if n and n > 0 else 16)
+
+    def makefile(self, *a, **k):
+        return self
+
+
+SENDERS = ['sendall', 'write', 'sendto', 'sendmsg']
+RECEIVERS = ['recv_into', 'readinto', 'recvfrom', 'read1', 'readall',
+             'readline', 'makefile']
+
+
+def surface_case(ctx, case):
+    """'After encryption is enabled, the bytes sent are the encryption of
+    the plaintext as one continuous stream, and received bytes decrypt
+    likewise': whatever else the two wrappers offer for moving payload
+    (sendall, write, recv_into, readinto, makefile ...) either is not there
+    or goes through the cipher too - never around it.
+    case {secret, before: bytes, probe: bytes, inp: bytes}"""
+    from minecraft.networking import encryption
+    secret, probe, inp = case['secret'], case['probe'], case['inp']
+    ctx.ev()
+    for name in SENDERS + RECEIVERS:
+        for which in ('socket', 'file'):
+            under = _RichUnder(aes.cfb8_encrypt(secret, secret, inp, True))
+            cipher = encryption.create_AES_cipher(secret)
+            enc, dec = cipher.encryptor(), cipher.decryptor()
+            w = encryption.EncryptedSocketWrapper(under, enc, dec) \
+                if which == 'socket' else \
+                encryption.EncryptedFileObjectWrapper(under, dec)
+            fn = getattr(w, name, None)
+            if fn is None:
+                ctx.label('surface_absent')
+                continue
+            sub = dict(case, method=name, wrapper=which)
+            try:
+                if name in SENDERS:
+                    if which == 'socket':
+                        w.send(case['before'])
+                        plain = case['before'] + probe
+                    else:
+                        plain = probe
+                    if name == 'sendmsg':
+                        fn([probe])
+                    elif name == 'sendto':
+                        fn(probe, ('h', 1))
+                    else:
+                        fn(probe)
+                    got = b''.join(under.sent)
+                    want = aes.cfb8_encrypt(secret, secret, plain, True)
+                    if which == 'file' or got != want:
+                        ctx.fail('surface', 'E1-payload-sent-around-the-'
+                                 'cipher', sub, got[:24].hex(),
+                                 want[:24].hex())
+                else:
+                    n = min(8, len(inp))
+                    if name in ('recv_into', 'readinto'):
+                        buf = bytearray(n)
+                        k = fn(buf)
+                        got = bytes(buf[:k])
+                    elif name == 'recvfrom':
+                        got = fn(n)[0]
+                    elif name == 'makefile':
+                        got = fn('rb').read(n)
+                    elif name == 'readall':
+                        got = fn()
+                    else:
+                        got = fn(n)
+                    if bytes(got) != inp[:len(got)] or not got:
+                        ctx.fail('surface', 'E2-payload-received-around-'
+                                 'the-cipher', sub, bytes(got)[:24].hex(),
+                                 inp[:n].hex())
+            except (TypeError, NotImplementedError, AttributeError):
+                ctx.label('surface_refuses')
+                continue
+            ctx.nt('surface', name, which)
+            ctx.label('surface_present_' + name)
+
+
 def stream_case(ctx, case):
     """case {secret, out: bytes, out_cuts [n..], inp: bytes,
              in_ops [(kind, n)..], order [bool..], pure: bool}"""
@@ -338,6 +447,7 @@ def installed_case(ctx, case):
 
 COMPONENTS = {'stream': stream_case, 'rsa': rsa_case,
               'login_secrets': login_secrets_case,
+              'surface': surface_case,
               'installed': installed_case}
 
 
@@ -382,6 +492,10 @@ def t_streams(ctx, n, maxlen, pure_every):
 
 
 def t_fixed(ctx):
+    for secret in (bytes(16), b'\xff' * 16, bytes(range(16))):
+        surface_case(ctx, {'secret': secret, 'before': b'earlier bytes',
+                           'probe': b'PLAINTEXT-PROBE-0123456789',
+                           'inp': bytes(range(40, 90))})
     for secret in (bytes(16), b'\xff' * 16, bytes(range(16))):
         for n in (0, 1, 15, 16, 17, 31, 32, 33, 255, 1024):
             data = bytes((i * 7) % 256 for i in range(n))
